@@ -63,7 +63,7 @@ def gen_limits(rng, kind):
 
 def gen_system(rng, *, max_nodes=24, p_table=0.25, p_mux=0.3, n_sources=None, polarity=True,
                p_rt=0.0, p_limits=0.0, p_group=0.0, p_rail=0.0, phases=0.0, p_neg_args=0.15,
-               heavy=False, p_neg_src_rs=0.0, p_detour=0.25, p_bridge=0.15, p_dup=0.0, p_micro=0.06, p_rename=0.0):
+               heavy=False, p_neg_src_rs=0.0, p_detour=0.25, p_bridge=0.15, p_dup=0.0, p_micro=0.06, p_rename=0.0, p_moved=0.1, p_zero_load=0.03, p_fallback=0.08):
     """Returns a description dict.  `heavy` sizes series resistances / loads towards overload."""
     ns = n_sources if n_sources is not None else rng.choice([1, 1, 1, 2, 2, 3])
     n_total = rng.randint(ns + 1, max(ns + 1, int(rng.choice([4, 8, 12, max_nodes]))))
@@ -127,12 +127,16 @@ def gen_system(rng, *, max_nodes=24, p_table=0.25, p_mux=0.3, n_sources=None, po
             args = {"pwr": sgn(rng, sd(rng, 1e-3, 1.5 * a * iscale / 3 + 2e-3), p_neg_args)}
             if rng.random() < 0.3:
                 args["pwrs"] = sd(rng, 1e-6, 1e-3)
+            if p_zero_load and rng.random() < p_zero_load:
+                args["pwr"] = rng.choice([0.0, 0])          # a load described only per phase / by its sleep value: nominal 0 W is a value
             if rng.random() < 0.2:
                 args["loss"] = True
         elif kind == "iload":
             args = {"ii": sgn(rng, sd(rng, 1e-4, iscale), p_neg_args)}
             if rng.random() < 0.3:
                 args["iis"] = sd(rng, 1e-7, 1e-4)
+            if p_zero_load and rng.random() < p_zero_load:
+                args["ii"] = rng.choice([0.0, 0])
             if rng.random() < 0.2:
                 args["loss"] = True
         elif kind == "rload":
@@ -240,6 +244,8 @@ def gen_system(rng, *, max_nodes=24, p_table=0.25, p_mux=0.3, n_sources=None, po
                         for p in c["parents"]]
 
     desc = {"name": "sys", "comps": comps, "phases": {}}
+    if p_fallback and rng.random() < p_fallback:
+        add_fallback(rng, desc)
     if rng.random() < phases:
         add_phases(rng, desc)
     if rng.random() < p_micro:
@@ -252,7 +258,31 @@ def gen_system(rng, *, max_nodes=24, p_table=0.25, p_mux=0.3, n_sources=None, po
         add_dupbridge(rng, desc)
     if rng.random() < p_rename:
         add_presolve_rename(rng, desc)
+    if rng.random() < p_moved:
+        add_moved(rng, desc)
     return desc
+
+
+def add_moved(rng, desc):
+    """a leaf is first attached somewhere else, the system is solved, the leaf is deleted and re-added UNDER THE SAME NAME at
+    its real place (the freed node index is re-used: name -> index is unchanged although the wiring is not); see sysdesc.build"""
+    plan = desc.get("_build") or {}
+    if any(k in plan for k in ("detour", "bridge", "dupbridge", "retouch", "presolve_rename")):
+        return
+    comps = desc["comps"]
+    used = set(q for c in comps for q in c["parents"])
+    rails = {c.get("rail"): c["name"] for c in comps if c.get("rail")}
+    used |= {rails[u] for u in list(used) if u in rails}
+    leaves = [c for c in comps if c["kind"] not in ("source", "pmux") and c["name"] not in used and c.get("rail", "") not in used
+              and len(c["parents"]) == 1]
+    if not leaves:
+        return
+    x = rng.choice(leaves)
+    real = rails.get(x["parents"][0], x["parents"][0])
+    hosts = [c["name"] for c in comps if c["kind"] not in ("pload", "iload", "rload") and c["name"] not in (x["name"], real)]
+    if not hosts:
+        return
+    desc.setdefault("_build", {})["moved"] = {"x": x["name"], "first_parent": rng.choice(hosts)}
 
 
 def add_presolve_rename(rng, desc):
@@ -322,6 +352,37 @@ def add_bridge(rng, desc):
     desc.setdefault("_build", {})["bridge"] = {"child": c["name"], "slot": rng.randrange(len(c["parents"]))}
 
 
+def add_fallback(rng, desc):
+    """The textbook use of a PMux: the preferred supply (listed first) is unplugged (a 0 V source), the mux falls back to the supply
+    the system was created with (the first source of the description, listed second).  Parents may be addressed by rail name."""
+    comps = desc["comps"]
+    srcs = [c for c in comps if c["kind"] == "source"]
+    mux = next((c for c in comps if c["kind"] == "pmux"), None)
+    if mux is None or len(srcs) < 2:
+        return
+    first, dead = srcs[0], rng.choice(srcs[1:])
+    owner = {}
+    for c in comps:
+        owner[c["name"]] = c["name"]
+        if c.get("rail"):
+            owner[c["rail"]] = c["name"]
+    n0 = len(mux["parents"])
+    rest = [p for p in mux["parents"] if owner.get(p) not in (first["name"], dead["name"])]
+
+    def ref(c):
+        return c["rail"] if (c.get("rail") and rng.random() < 0.4) else c["name"]
+    new = [ref(dead), ref(first)] + rest
+    if isinstance(mux["args"].get("rs"), list):
+        rs = list(mux["args"]["rs"])
+        while len(rs) < len(new):
+            rs.append(rs[-1])
+        mux["args"]["rs"] = rs[:len(new)]
+    mux["parents"] = new
+    mux.pop("plist", None)
+    dead["args"]["vo"] = rng.choice([0.0, 0.0, 0])
+    desc["_fallback"] = {"mux": mux["name"], "dead": dead["name"], "feeds": first["name"]}
+
+
 def add_detour(rng, desc):
     """choose a leaf to be added late (after a first solve with a decoy in another place); see sysdesc.build"""
     comps = desc["comps"]
@@ -346,6 +407,8 @@ def add_phases(rng, desc, unknown=0.1):
     n = rng.randint(2, 5)
     names = rng.sample(["sleep", "idle", "tx", "rx", "move", "boot", "burst"], n)
     desc["phases"] = {p: sd(rng, 1e-3, 1e5) for p in names}
+    if rng.random() < 0.06:
+        desc["phases"][rng.choice(names)] = 0.0          # a phase of zero duration is a defined phase like any other
     for c in desc["comps"]:
         if rng.random() < 0.5:
             continue
@@ -362,6 +425,8 @@ def add_phases(rng, desc, unknown=0.1):
                 sub.append("nosuch")
             if rng.random() < 0.08:
                 sub = ["nosuch"]              # names only phases outside the system's set: inactive in every phase
+            elif rng.random() < 0.08:
+                sub = []                      # an explicitly EMPTY list: no configuration, always active
             c["pconf"] = sub
     desc.setdefault("_build", {})["phase_order"] = rng.choice(["normal", "normal", "comp_first", "redefine"])
     plain = [c for c in desc["comps"] if c.get("pconf") is None and c["kind"] not in ("rloss", "vloss", "rectifier")]
